@@ -534,7 +534,7 @@ func (r *tunnelRun) one(cfgNo int, cfg tnCfg, conns int) {
 			x := &v1.TCPProxyConfig{}
 			x.RemotePort = tcpPorts[i-1]
 			c = x
-		case "stcp":
+		case "stcp", "xtcp": // for xtcp the data path is the stcp proxy the visitor falls back to
 			x := &v1.STCPProxyConfig{}
 			x.Secretkey = "tsk"
 			c = x
@@ -551,6 +551,9 @@ func (r *tunnelRun) one(cfgNo int, cfg tnCfg, conns int) {
 		b := c.GetBaseConfig()
 		b.Name = fmt.Sprintf("p%d", i)
 		b.Type = cfg.Kind
+		if cfg.Kind == "xtcp" {
+			b.Type = "stcp"
+		}
 		b.LocalIP = "127.0.0.1"
 		b.LocalPort = backs[i-1].ln.Addr().(*net.TCPAddr).Port
 		b.Transport.UseEncryption = cfg.Enc
@@ -562,15 +565,25 @@ func (r *tunnelRun) one(cfgNo int, cfg tnCfg, conns int) {
 		}
 		return c
 	}
-	cli, err := env.StartClient(srv.Cfg.BindPort, func(c *v1.ClientCommonConfig) { applyTransport(c, cfg) },
-		[]v1.ProxyConfigurer{mkProxy(1), mkProxy(2), mkProxy(3)}, nil)
+	pcs := []v1.ProxyConfigurer{mkProxy(1), mkProxy(2), mkProxy(3)}
+	if cfg.Kind == "xtcp" { // the xtcp proxies themselves: no hole can be punched here (no STUN server), every connection falls back
+		for i := 1; i <= 3; i++ {
+			x := &v1.XTCPProxyConfig{}
+			x.Name, x.Type, x.LocalIP, x.LocalPort, x.Secretkey = fmt.Sprintf("x%d", i), "xtcp", "127.0.0.1", backs[i-1].ln.Addr().(*net.TCPAddr).Port, "tsk"
+			pcs = append(pcs, x)
+		}
+	}
+	cli, err := env.StartClient(srv.Cfg.BindPort, func(c *v1.ClientCommonConfig) {
+		applyTransport(c, cfg)
+		c.NatHoleSTUNServer = "127.0.0.1:1"
+	}, pcs, nil)
 	if err != nil {
 		r.note(cfgNo, cfg, "client start failed", err)
 		return
 	}
 	defer cli.Stop()
 	ready := func() bool { // registered at the server and started at the client (the client learns of it one message later)
-		if len(srv.Svc.VerifState().Names) != 3 {
+		if len(srv.Svc.VerifState().Names) != len(pcs) {
 			return false
 		}
 		for i := 1; i <= 3; i++ {
@@ -599,7 +612,7 @@ func (r *tunnelRun) one(cfgNo int, cfg tnCfg, conns int) {
 		for i := 1; i <= 3; i++ {
 			userAddr[i] = fmt.Sprintf("127.0.0.1:%d", muxPort)
 		}
-	case "stcp":
+	case "stcp", "xtcp":
 		var vis []v1.VisitorConfigurer
 		for i := 1; i <= 3; i++ {
 			vp := tnPort()
@@ -614,8 +627,19 @@ func (r *tunnelRun) one(cfgNo int, cfg tnCfg, conns int) {
 			x.Transport.UseCompression = cfg.VComp
 			vis = append(vis, x)
 			userAddr[i] = fmt.Sprintf("127.0.0.1:%d", vp)
+			if cfg.Kind == "xtcp" {
+				// users connect to the xtcp visitor, which hands the connection to the stcp visitor (bindPort -1: no listener of its own)
+				x.BindPort = -1
+				xv := &v1.XTCPVisitorConfig{}
+				xv.Name, xv.Type, xv.ServerName, xv.SecretKey, xv.BindAddr, xv.BindPort = fmt.Sprintf("xv%d", i), "xtcp", fmt.Sprintf("x%d", i), "tsk", "127.0.0.1", vp
+				xv.FallbackTo, xv.FallbackTimeoutMs = x.Name, 300
+				vis = append(vis, xv)
+			}
 		}
-		vcli, err := env.StartClient(srv.Cfg.BindPort, func(c *v1.ClientCommonConfig) { applyTransport(c, cfg); c.User = "" }, nil, vis)
+		vcli, err := env.StartClient(srv.Cfg.BindPort, func(c *v1.ClientCommonConfig) {
+			applyTransport(c, cfg)
+			c.NatHoleSTUNServer = "127.0.0.1:1"
+		}, nil, vis)
 		if err != nil {
 			r.note(cfgNo, cfg, "visitor client start failed", err)
 			return
@@ -905,12 +929,12 @@ func (r *tunnelRun) runUser(cfgNo int, cfg tnCfg, addr string, p *userPlan, b *t
 }
 
 func tnLattice(rnd *rand.Rand, n int) []tnCfg {
-	kinds := []string{"tcp", "stcp", "https", "tcpmux"}
+	kinds := []string{"tcp", "stcp", "https", "tcpmux", "xtcp"}
 	transports := []string{"tcp", "websocket", "kcp", "quic"}
 	var out []tnCfg
 	seen := map[string]bool{}
 	for len(out) < n {
-		c := tnCfg{Kind: kinds[rnd.Intn(4)], Enc: rnd.Intn(2) == 0, Comp: rnd.Intn(2) == 0, Limit: []string{"none", "none", "client", "server"}[rnd.Intn(4)],
+		c := tnCfg{Kind: kinds[rnd.Intn(5)], Enc: rnd.Intn(2) == 0, Comp: rnd.Intn(2) == 0, Limit: []string{"none", "none", "client", "server"}[rnd.Intn(4)],
 			Mux: rnd.Intn(2) == 0, Transport: transports[rnd.Intn(4)], TLS: rnd.Intn(2) == 0, Pool: []int{0, 2}[rnd.Intn(2)], PP: []string{"", "", "v1", "v2"}[rnd.Intn(4)],
 			VEnc: rnd.Intn(2) == 0, VComp: rnd.Intn(2) == 0, Shared: rnd.Intn(2) == 0}
 		if len(out) < 4 { // every kind shows up over the common transport
@@ -920,7 +944,10 @@ func tnLattice(rnd *rand.Rand, n int) []tnCfg {
 		if c.Transport == "quic" {
 			c.TLS = true
 		}
-		if c.Kind != "stcp" {
+		if len(out) == 6 { // xtcp falling back to stcp shows up in every run
+			c.Kind, c.Transport = "xtcp", "tcp"
+		}
+		if c.Kind != "stcp" && c.Kind != "xtcp" {
 			c.VEnc, c.VComp = false, false
 		}
 		if c.Kind != "https" {
